@@ -19,6 +19,9 @@ BQ = [
     (4, 1, ['push:11,push:12', 'push:21', 'abort,try_pop,try_pop']),   # blocked pushes aborted; nothing lost or duplicated
     (20, 2, ['pop,push:11', 'push:21,pop', 'push:31']),
     (4, 1, ['push:11,push:12', 'abort,try_pop,try_push:31,try_pop,try_pop']),   # after an aborted push the queue must not stay 'full'
+    # try_push must not report 'full' for a queue that was never full during the call: one thread keeps an item moving (pop, push) while another tries to push into the last free slot
+    (4, 2, ['push:11,try_push:12,try_pop,try_push:13', 'pop,try_push:21,try_pop,try_push:22']),
+    (132, 3, ['push:11,push:12,try_push:13,try_pop', 'pop,try_push:21,pop,try_push:22', 'try_push:31,try_pop']),
 ]
 FAULT = [  # (kind, pad, cap, fault kind, kmax, programs)  - post-fault operations are pops only (a later push may legitimately throw bad_last_alloc)
     ('cq', 132, 0, 'alloc', 4, ['push:11,push:12,push:13,try_pop,try_pop,try_pop,try_pop']),
